@@ -80,9 +80,9 @@ def gen(c):
             s2 = ((int.from_bytes(seq, "big") + d) % (1 << 64)).to_bytes(8, "big")
             add("seq:tls13:len%d:+%d" % (n, d), seq=s2, msg=b13, touched=1, **base13)
     # ---- forged all-padding plaintexts (the forger knows the keys): must be refused, and must not crash ----
-    for n in (16, 32, 48, 256):
+    for n in ((16, 32, 48, 64, 272) if c.quick else (16, 32, 48, 64, 80, 96, 112, 256, 272, 288)):
         k, mk, iv, iv16, seq = rb(16), rb(32), rb(12), rb(16), rng.choice(seqs)
-        for pv in (n - 1, 15, 255, 0):
+        for pv in range(0, min(256, n + 2)):            # every padding value, incl. the ones that leave exactly / one less than / no room for the MAC
             pt = bytes([pv & 255]) * n
             body = iv16 + K.cbc_enc(T, "sm4", k, iv16, pt)
             add("allpad:cbc:len%d:pv%d" % (n, pv), f="tls_cbc_dec", api="oneshot", key=k, mackey=mk, seq=seq, hdr3=HDR_TLS12, msg=body)
